@@ -2,6 +2,7 @@
 import copy
 import math
 import os
+import random
 import shutil
 import statistics
 import tempfile
@@ -792,7 +793,7 @@ def payload(c, extra=None):
     return p
 
 
-def check_cases(ctx, corr, cases, exe, gama, tmp, do_pairs=True):
+def check_cases(ctx, corr, cases, exe, gama, tmp, do_pairs=True, prefix="n"):
     # ---- correspondence: in-process accessors vs model at Float
     impl, crashes = run_cases(exe, [[f"load {c['path']} -"] for c in cases], timeout=900)
     drv_cases, meta = [], []
@@ -806,6 +807,7 @@ def check_cases(ctx, corr, cases, exe, gama, tmp, do_pairs=True):
             c["refused"] = True
             continue
         ops, exp, com = split_harness(impl[i])
+        c["lines"] = (ops, exp)
         drv_cases.append(ops)
         meta.append((i, exp, com))
         abad = []
@@ -889,8 +891,8 @@ def check_cases(ctx, corr, cases, exe, gama, tmp, do_pairs=True):
 
     # ---- oracle on the XML result of gama-local
     for i, c in enumerate(cases):
-        xmlp = tmp / f"n{i}.xml"
-        txtp = tmp / f"n{i}.txt"
+        xmlp = tmp / f"{prefix}{i}.xml"
+        txtp = tmp / f"{prefix}{i}.txt"
         R, rc, tail = run_gama(gama, c["path"], xmlp, txtp)
         c["R"] = R
         par = c["net"]["params"]
@@ -937,9 +939,9 @@ def check_cases(ctx, corr, cases, exe, gama, tmp, do_pairs=True):
             s2 = c.get("sigma_apr_2") or ctx.rng.choice([s for s in sigma_choices(c["net"]) if s != s1] or [s1 * 3])
             net2 = copy.deepcopy(c["net"])
             net2["params"]["sigma-apr"] = s2
-            p2 = tmp / f"n{i}b.gkf"
+            p2 = tmp / f"{prefix}{i}b.gkf"
             p2.write_text(gen_net.to_gkf(net2, algorithm=c["alg"], nd=10))
-            R2, rc, tail = run_gama(gama, p2, tmp / f"n{i}b.xml")
+            R2, rc, tail = run_gama(gama, p2, tmp / f"{prefix}{i}b.xml")
             npairs += 1
             if R2 is None:
                 corr.fail("changing only sigma-apr turns an adjustable network into a refused one",
@@ -957,6 +959,207 @@ def check_cases(ctx, corr, cases, exe, gama, tmp, do_pairs=True):
                           "LocalNetwork (sigma-apr scaling)", "\n".join(f"{a}: {b}" for a, b in bad[:8]))
 
 
+# ------------------------------------------------------------------------------------ structured networks (always on)
+#
+# Deterministic networks that sit ON the guards of the formulas (they do not depend on the seed):
+#   * points whose 2x2 cofactor block is exactly diagonal with q_yy > q_xx, q_xx > q_yy, q_xx == q_yy
+#     (C09_ellipse_is_eigen_full / C09_ellipse_guard_boundary: bearing pi/2, 0, 0), all four algorithms;
+#   * the same network adjusted with sigma-apr 1, 1000 and 0.001 (weights x 1e6, x 1e-6), every accessor and every
+#     XML field compared with the exact scaling law of C09_residual_cofactor_scale_free / C09_m0_guard_full /
+#     C09_ellipse_scale_free (gso and svd only: envelope / cholesky test pivots against an absolute tolerance,
+#     known finding C09-F2).
+
+def _fixed_frame():
+    return {"F1": {"x": 1000.0, "y": 1000.0, "status": "fix", "approx": True},
+            "F2": {"x": 1200.0, "y": 1050.0, "status": "fix", "approx": True},
+            "F3": {"x": 1100.0, "y": 1300.0, "status": "fix", "approx": True}}
+
+
+def _trilaterated(rng, pts, pid, xy, sds, extra=1):
+    """point `pid` at `xy` fixed by distances to F1..F3 (+ `extra` repeated ones) with standard deviations from `sds`"""
+    q = {"x": xy[0], "y": xy[1], "status": "adj", "approx": True}
+    pts[pid] = q
+    items = []
+    for k, f in enumerate(("F1", "F2", "F3", "F1", "F2")[:3 + extra]):
+        sd = sds[k % len(sds)]
+        items.append({"t": "distance", "to": f, "stdev": sd, "val": gen_net.dist2(q, pts[f]) + rng.gauss(0, sd / 1e3)})
+    return {"kind": "obs", "from": pid, "orient": 0.0, "items": items}
+
+
+def diag_block_fixed(rng, shape, how, sx=2.0, ratio=3.0, cov2=None, q_scale=1.0):
+    """one trilaterated point Q (so that dof > 0) and one point D whose 2x2 block is determined only by
+    <coordinates> / <vectors> with the covariance `cov2` (default: diagonal, variances ordered by `shape`)"""
+    pts = _fixed_frame()
+    obs = [_trilaterated(rng, pts, "Q", (1090.0, 1110.0), (1.0 * q_scale, 3.0 * q_scale, 5.0 * q_scale))] if q_scale else []
+    sy = sx if shape == "circle" else (sx * ratio if shape == "y>x" else sx / ratio)
+    cov = cov2 or [[sx ** 2, 0.0], [0.0, sy ** 2]]
+    band = 0 if cov[0][1] == 0.0 else 1
+    p = {"x": 1500.0, "y": 2400.0, "status": "adj", "approx": True}
+    pts["D"] = p
+    ex, ey = math.sqrt(cov[0][0]) / 1e3, math.sqrt(cov[1][1]) / 1e3
+    if how in ("coords", "coords2"):
+        for rep in range(2 if how == "coords2" else 1):
+            obs.append({"kind": "coords", "band": band, "cov": [list(cov[0]), list(cov[1])],
+                        "items": [{"id": "D", "x": p["x"] + rng.gauss(0, ex), "y": p["y"] + rng.gauss(0, ey)}]})
+    else:                                                            # "vector": 3D point tied to a fixed 3D point
+        pts["G"] = {"x": 900.0, "y": 1900.0, "z": 100.0, "status": "fix", "approx": True}
+        p["z"] = 120.0
+        g = pts["G"]
+        c3 = [[cov[0][0], cov[0][1], 0.0], [cov[1][0], cov[1][1], 0.0], [0.0, 0.0, 4.0]]
+        for rep in range(2):
+            obs.append({"kind": "vectors", "band": 0 if band == 0 else 2, "cov": c3,
+                        "items": [{"from": "G", "to": "D", "dx": p["x"] - g["x"] + rng.gauss(0, ex),
+                                   "dy": p["y"] - g["y"] + rng.gauss(0, ey), "dz": p["z"] - g["z"] + rng.gauss(0, 2e-3)}]})
+    return {"dim": 2, "points": pts, "obs": obs,
+            "params": {"sigma-apr": 10, "conf-pr": 0.95, "tol-abs": 1000, "sigma-act": "aposteriori"}}
+
+
+def trilat_pair_network(rng, sds=(1.0,), dof_extra=2):
+    """two unknown points, distances to three fixed points and between them (all standard deviations from `sds`)"""
+    pts = _fixed_frame()
+    obs = [_trilaterated(rng, pts, "Q", (1090.0, 1110.0), sds, extra=dof_extra),
+           _trilaterated(rng, pts, "R", (1150.0, 1180.0), sds[::-1], extra=1)]
+    sd = sds[0]
+    obs[0]["items"].append({"t": "distance", "to": "R", "stdev": sd,
+                            "val": gen_net.dist2(pts["Q"], pts["R"]) + rng.gauss(0, sd / 1e3)})
+    return {"dim": 2, "points": pts, "obs": obs,
+            "params": {"sigma-apr": 10, "conf-pr": 0.95, "tol-abs": 1000, "sigma-act": "aposteriori"}}
+
+
+TRIPLE_SIGMAS = (1.0, 1000.0, 0.001)
+
+
+def structured_nets():
+    """[(family, net, algorithms, sigma-apr tuple or None)] -- independent of the seed"""
+    rng = random.Random("C09-structured")
+    out = []
+    k = 0
+    for shape in ("y>x", "x>y", "circle"):
+        for how in ("coords", "coords2", "vector"):
+            net = diag_block_fixed(rng, shape, how, sx=(1.0, 2.0, 3.0)[k % 3], ratio=(2.0, 3.0, 5.0)[(k // 3) % 3])
+            net["params"]["sigma-act"] = ("apriori", "aposteriori")[k % 2]
+            net["params"]["sigma-apr"] = (1, 10, 2)[k % 3]
+            out.append((f"structured:diag[{how}:{shape}]", net, ALGS, None))
+            k += 1
+    # sigma-apr triples: every standard deviation is 1 (mm, cc), so the weights are 1, 1e6, 1e-6
+    t1 = trilat_pair_network(rng, sds=(1.0,))
+    t2 = diag_block_fixed(rng, "y>x", "coords2", sx=1.0, ratio=2.0)
+    for it in t2["obs"][0]["items"]:
+        it["stdev"] = 1.0
+    t3 = trilat_pair_network(rng, sds=(1.0,), dof_extra=0)           # small redundancy: dof 2
+    t4 = gen_net.levelling_network(rng, npts=5, nfixed=1, extra=3, noise=1.0)
+    for it in t4["obs"][0]["items"]:
+        it.pop("dist", None)
+        it["stdev"] = 1.0
+    for j, (nm, net) in enumerate((("trilat", t1), ("diag", t2), ("trilat-dof2", t3), ("level", t4))):
+        net["params"]["sigma-act"] = ("aposteriori", "apriori")[j % 2]
+        out.append((f"structured:triple[{nm}]", net, ["gso", "svd"], TRIPLE_SIGMAS))
+    return out
+
+
+def oracle_scale_lines(opsA, expA, opsB, expB, sA, sB):
+    """the accessor lines of the same network adjusted with sigma-apr sA and sB, field by field against the scaling law
+    (weights x k = (sB/sA)^2): q_vv x 1/k, v'Pv x k, m0 (a posteriori) x sB/sA, everything else unchanged"""
+    bad, n = [], 0
+    F = hex2float
+    k, s = (sB / sA) ** 2, sB / sA
+
+    def chk(what, a, b, rtol=1e-6, atol=0.0):
+        nonlocal n
+        n += 1
+        if a != a or b != b or abs(a - b) > atol + rtol * max(abs(a), abs(b)):
+            bad.append((what, f"sigma-apr={sA:g}: {a!r} (rescaled)   sigma-apr={sB:g}: {b!r}"))
+
+    if [o.split()[0] for o in opsA] != [o.split()[0] for o in opsB]:
+        return [("accessor lines differ in number / kind when only sigma-apr changes",
+                 f"{len(opsA)} lines vs {len(opsB)} lines")], 1
+    io = 0
+    for opA, eA, opB, eB in zip(opsA, expA, opsB, expB):
+        ta, tb = opA.split(), opB.split()
+        kind = ta[0]
+        if kind == "dof":
+            n += 1
+            if ta[1:] != tb[1:] or eA != eB:
+                bad.append(("scale: rows / cols / defect / dof", f"{opA} => {eA}   vs   {opB} => {eB}"))
+        elif kind == "m0":
+            phiA, phiB = F(ta[3]), F(tb[3])
+            chk("scale: v'Pv x sigma-apr^2", phiA * k, phiB, atol=1e-20)
+            chk("scale: m_0_aposteriori_value x sigma-apr", F(eA[1]) * s, F(eB[1]), atol=1e-14)
+            chk("scale: m_0 x sigma-apr (both modes)", F(eA[0]) * s, F(eB[0]), atol=1e-14)
+        elif kind == "conf":
+            chk("scale: conf_int_coef unchanged", F(eA[0]), F(eB[0]), rtol=1e-12)
+        elif kind == "unk":
+            chk("scale: unknown_stdev unchanged", F(eA[0]), F(eB[0]), atol=1e-12)
+        elif kind == "obs":
+            io += 1
+            m0A = F(ta[1])
+            wA, slA, qA, srA, stA, fA = (F(x) for x in eA[:6])
+            wB, slB, qB, srB, stB, fB = (F(x) for x in eB[:6])
+            chk(f"scale: obs {io} weight x sigma-apr^2", wA * k, wB, rtol=1e-12)
+            chk(f"scale: obs {io} stdev_obs unchanged", slA, slB, atol=1e-12)
+            chk(f"scale: obs {io} wcoef_res x 1/sigma-apr^2 (no absolute threshold in the clamp)", qA, qB * k, atol=1e-7 / wA)
+            chk(f"scale: obs {io} stdev_res unchanged", srA * srA, srB * srB, atol=1e-6 * m0A * m0A / wA)
+            chk(f"scale: obs {io} obs_control unchanged", fA, fB, atol=1e-5)
+            if min(fA, fB) >= 0.1:                       # below: residual cofactor is rounding noise
+                chk(f"scale: obs {io} studentized_residual unchanged", stA, stB, rtol=1e-4, atol=1e-6)
+        elif kind == "ell":
+            aA, bA, alA = (F(x) for x in eA[:3])
+            aB, bB, alB = (F(x) for x in eB[:3])
+            chk("scale: ellipse a unchanged", aA, aB, atol=1e-12)
+            chk("scale: ellipse b unchanged", bA, bB, rtol=1e-5, atol=1e-7 * aA + 1e-12)
+            if aA - bA > 1e-3 * aA:
+                d = abs(alA - alB)
+                chk("scale: ellipse bearing unchanged", min(d, math.pi - d), 0.0, atol=1e-5 * aA / (aA - bA))
+    return bad, n
+
+
+def check_structured(ctx, corr, exe, gama, tmp):
+    """the structured networks through the ordinary oracles (check_cases) and, for the sigma-apr triples, the scaling
+    law on the accessor lines and on the XML fields"""
+    cases, triples = [], []
+    for fam, net, algs, sigmas in structured_nets():
+        for alg in algs:
+            if sigmas is None:
+                cases.append({"fam": fam, "net": net, "alg": alg})
+            else:
+                grp = []
+                for sg in sigmas:
+                    n2 = copy.deepcopy(net)
+                    n2["params"]["sigma-apr"] = sg
+                    grp.append({"fam": fam, "net": n2, "alg": alg})
+                cases += grp
+                triples.append(grp)
+    for i, c in enumerate(cases):
+        c["path"] = tmp / f"s{i}.gkf"
+        c["path"].write_text(gen_net.to_gkf(c["net"], algorithm=c["alg"], nd=10))
+    check_cases(ctx, corr, cases, exe, gama, tmp, do_pairs=False, prefix="s")
+    corr.count("structured_networks", len(cases))
+    for grp in triples:
+        a = grp[0]
+        sA = float(a["net"]["params"]["sigma-apr"])
+        for b in grp[1:]:
+            sB = float(b["net"]["params"]["sigma-apr"])
+            bad, n = [], 0
+            if a.get("R") is None or b.get("R") is None or "lines" not in a or "lines" not in b:
+                bad.append(("changing only sigma-apr turns an adjustable network into a refused one",
+                            f"sigma-apr={sA:g}: {'adjusted' if a.get('R') else 'refused'}, sigma-apr={sB:g}: "
+                            f"{'adjusted' if b.get('R') else 'refused'} ({a['alg']})"))
+            else:
+                bad, n = oracle_scale_lines(a["lines"][0], a["lines"][1], b["lines"][0], b["lines"][1], sA, sB)
+                b2, n2 = oracle_pair(a["R"], b["R"], sA, sB)
+                bad += b2
+                n += n2
+            for _ in range(n):
+                corr.case(key=None)
+            corr.nontrivial.add(("triple", a["fam"], a["alg"], sB))
+            corr.count("sigma_apr_triple_legs")
+            corr.count("triple_fields_checked", n)
+            if bad:
+                corr.fail("changing only sigma-apr changes more than v'Pv and the weights: " + bad[0][0],
+                          payload(a, {"sigma_apr_2": sB, "violations": [list(x) for x in bad[:8]], "oracle": "scale"}),
+                          "LocalNetwork (sigma-apr scaling)", "\n".join(f"{x}: {y}" for x, y in bad[:8]))
+
+
 def correspond(ctx, corr):
     d, objs = libgama_objects(ctx)
     exe = ctx.build_cpp("c09_stats", [ctx.verif / "harness" / "c09_stats.cpp"], libs=objs + ["-lexpat"],
@@ -965,11 +1168,36 @@ def correspond(ctx, corr):
     try:
         cases = build_cases(ctx, tmp, ctx.size(500, 12000))
         check_cases(ctx, corr, cases, exe, d / "gama-local", tmp)
+        check_structured(ctx, corr, exe, d / "gama-local", tmp)
+        # the regenerated formulas and the reference model at Float against the Python definitions on the guard grid
+        hits, npts = grid_eval(ctx)
+        corr.count("guard_grid_arguments", npts)
+        for _ in range(npts):
+            corr.case(key=None)
+        corr.nontrivial.add(("grid", npts))
+        for h in hits[:3]:
+            corr.disagree("stats:grid:" + h["kind"], [h["op"]], [h["ref"]], [h["gen"]],
+                          "guard grid (impl = reference model, model = regenerated formula): " + json.dumps(describe_hit(h))[:900])
         adjusted = sum(1 for c in cases if c.get("R") is not None)
         corr.count("networks", len(cases))
         corr.count("networks_adjusted", adjusted)
         if adjusted < 0.7 * len(cases):
             corr.inconclusive.append(f"only {adjusted}/{len(cases)} generated networks were adjusted")
+        # The pipeline calls `search` only when there is no oracle failure at all, and C09 always has the failures of its
+        # known findings; so when the tie is visibly broken (a regenerated formula left the reference on the grid, the
+        # accessors disagree with the model, or Props/C09 did not build against the regenerated formulas) and every
+        # oracle failure so far is a known finding, the search runs here.
+        if all(classify(ctx, f) is not None for f in corr.failures):
+            why = ([f"{len(hits)} grid arguments where a regenerated formula differs"] if hits else []) + \
+                  (["accessor / model disagreements"] if any(not x["stream"].startswith("stats:grid") for x in corr.disagreements) else []) + \
+                  ([] if props_current(ctx) else ["Gama.Props.C09 does not build against the regenerated formulas"])
+            if why:
+                ctx.log("tie broken (" + "; ".join(why) + ") and no unexplained oracle failure yet: searching for a failing input")
+                found = search(ctx, [], corr, grid=(hits, npts))
+                corr.failures[:0] = found
+                corr.count("search_failures_found", len(found))
+        # the deterministic structured networks first: their failures are the easiest to read
+        corr.failures.sort(key=lambda f: 0 if isinstance(f.replay, dict) and str(f.replay.get("family", "")).startswith("structured") else 1)
         for need in ("dof_0", "dof_1", "act_apriori", "act_aposteriori", "defect_3", "defect_0"):
             if not corr.stats.get(need):
                 corr.inconclusive.append(f"no generated case with {need}")
@@ -1003,33 +1231,343 @@ def boundary_cases(ctx, tmp, count):
     return cases
 
 
-def search(ctx, broken, corr):
-    """something broke (proof / translator / correspondence) and the always-on oracle saw nothing: sweep the boundary
-    families, then a larger general sample, before giving up"""
+# ------------------------------------------------------------------------------------ search: formula grid -> network
+#
+# When a `gen_*` / property theorem no longer checks, the regenerated Lean formula IS the changed C++ formula.  It is
+# evaluated (drv_stats, Float) next to the reference model (`ref` ops of the driver) and next to the Python definition
+# on a grid that contains every guard boundary; an argument where they differ names the input region in which the
+# implementation left the property.  That argument is then realised as a gama-local network and the violation is
+# confirmed on the real executable with the ordinary oracles.
+
+GEN_KIND = {  # broken theorem / definition name -> grid op kinds that exercise it
+    "stdErrorEllipse": ("ell",), "ellipse": ("ell",), "wcoefRes": ("obs",), "residual": ("obs", "err"),
+    "weightObs": ("obs",), "weight": ("obs",), "sigmaL": ("obs",), "sigma": ("obs", "unk", "cov"), "stdevRes": ("obs",),
+    "studentized": ("obs",), "obsControl": ("obs",), "qvv": ("obs",), "m0": ("m0", "xml"), "xmlAposteriori": ("xml",),
+    "xmlRatio": ("xml",), "ratio": ("xml",), "confIntCoef": ("conf",), "conf": ("conf", "accept"), "confPrAccepted": ("accept",),
+    "dof": ("dof",), "unknownStdev": ("unk",), "covEntry": ("cov",), "errObsAdj": ("err",), "err": ("err",),
+}
+
+
+def guard_grid():
+    """driver op lines; deterministic.  Contains: exact zeros, equal diagonal entries, cyy > cxx with cxy = 0, singular
+    blocks, entries from 1e-14 to 1e8; weights (sigma-apr/stdev)^2 from 1e-8 to 1e8; q_bb at 1 +- ulp (q_vv just above /
+    below 0); dof -1..3, 10; conf-pr and its guard ends."""
+    H = float2hex
+    ops = []
+    diag = [0.0, 1e-14, 1e-9, 1e-4, 0.25, 1.0, 1.0 + 2 ** -52, 4.0, 100.0, 1e4, 1e8]
+    for cxx in diag:
+        for cyy in diag:
+            g = math.sqrt(cxx * cyy)
+            offs = {0.0}
+            for r in (1e-12, 1e-6, 0.3, 0.999, 1.0):
+                offs |= {r * g, -r * g}
+            if cxx == cyy:
+                offs |= {5e-324, 1e-300}
+            for cyx in sorted(offs):
+                if cyx * cyx > cxx * cyy and not (cxx == cyy and abs(cyx) <= 1e-300):
+                    continue
+                for m in (0.0, 1.0, 7.5):
+                    ops.append(f"ell {H(cyy)} {H(cyx)} {H(cxx)} {H(m)}")
+    qbbs = [0.0, 1e-9, 0.1, 0.5, 0.9, 1 - 1e-6, 1 - 1e-12, 1 - 2 ** -53, 1.0, 1 + 2 ** -52, 1 + 1e-12, 1 + 1e-6, 1.5]
+    for sapr in (0.001, 0.01, 1.0, 10.0, 1000.0):
+        for sd in (0.01, 0.1, 1.0, 5.0, 100.0):
+            for qbb in qbbs:
+                for m in (0.0, 1.0, sapr, 2.5 * sapr):
+                    for r in (0.0, 1e-3, -2.5):
+                        ops.append(f"obs {H(m)} {H(sapr)} {H(qbb)} {H(sd)} {H(r)}")
+    for act in ("apriori", "aposteriori"):
+        for dof in (-1, 0, 1, 2, 3, 10):
+            for sapr in (0.001, 1.0, 10.0, 1000.0):
+                for phi in (0.0, 1e-12, 1.0, 12.0, 1e6):
+                    ops.append(f"m0 {act} {H(sapr)} {H(phi)} {dof}")
+            for cp in (0.5, 0.95, 0.999):
+                pa = (1 - cp) / 2
+                ops.append(f"conf {act} {H(cp)} {dof} {H(pa)} {H(1.25 + cp)} {H(2.5 + dof + cp)}")
+    for rows in range(0, 13, 3):
+        for cols in range(0, 10, 2):
+            for defect in (0, 1, 3):
+                ops.append(f"dof {rows} {cols} {defect}")
+    for m in (0.0, 1.0, 10.0, 1e-3):
+        for q in (0.0, 1e-14, 1e-6, 1.0, 1e8):
+            ops.append(f"unk {H(m)} {H(q)}")
+            ops.append(f"cov {H(m)} {H(q)}")
+            ops.append(f"cov {H(m)} {H(-q)}")
+    for dof in (-1, 0, 1, 2, 3, 10):
+        for sapr in (0.001, 1.0, 1000.0):
+            for phi in (0.0, 1e-12, 12.0, 1e6):
+                ops.append(f"xml {H(phi)} {H(sapr)} {dof}")
+    for v in (0.0, 1e-3, -2.5):
+        for qvv in (1e-9, 0.15, 1.0, 1e6):
+            for w in (1e-8, 1.0, 4.0, 1e8):
+                ops.append(f"err {H(v)} {H(qvv)} {H(w)}")
+    for pr in (0.0, 1.0, -0.0, -1e-300, 5e-324, 1 - 2 ** -53, 1 + 2 ** -52, 0.5, 0.95, 2.0, -3.0):
+        ops.append(f"accept {H(pr)}")
+    return ops
+
+
+def definition_check(op, rep):
+    """a driver answer against the definition of the quantity (Python, independent of both Lean models)"""
+    t = op.split()
+    F = hex2float
+    if t[0] in ("dof", "m0", "conf", "unk", "obs", "ell"):
+        return oracle_accessor(op, rep)
+    bad = []
+
+    def close(what, got, want, rtol=1e-11):
+        if got == want or (got != got and want != want):
+            return
+        if got != got or want != want or abs(got - want) > rtol * max(abs(got), abs(want)):
+            bad.append((what, f"reported={got!r} definition={want!r}"))
+    try:
+        if t[0] == "cov":
+            close("<cov-mat> entry = m0^2 q", F(rep[0]), F(t[1]) * F(t[1]) * F(t[2]))
+        elif t[0] == "xml":
+            phi, sapr, dof = F(t[1]), F(t[2]), int(t[3])
+            ap = math.sqrt(phi / dof) if dof > 0 else 0.0
+            close("<aposteriori> = sqrt(v'Pv/dof)", F(rep[0]), ap)
+            close("<ratio> = aposteriori/apriori", F(rep[1]), ap / sapr if dof != 0 else 0.0)
+        elif t[0] == "err":
+            v, qvv, w = F(t[1]), F(t[2]), F(t[3])
+            close("<err-obs> = v/(qrr p)", F(rep[0]), v / (qvv * w))
+            close("<err-adj> = err-obs - v", F(rep[1]), v / (qvv * w) - v)
+        elif t[0] == "accept":
+            pr = F(t[1])
+            if (rep[0] == "1") != (0 < pr < 1):
+                bad.append(("conf_pr stored iff 0 < p < 1", f"p={pr!r} flag={rep[0]}"))
+    except (ValueError, IndexError, ZeroDivisionError, OverflowError) as e:
+        bad.append(("grid line unreadable", f"{op} => {rep}: {e!r}"))
+    return bad
+
+
+def grid_eval(ctx):
+    """[{kind, op, gen, ref, differs, violations}] for every grid argument where the regenerated formula differs from
+    the reference model or violates the definition; (hits, number of grid points)"""
+    ops = guard_grid()
+    gen_out, c1 = run_cases(ctx.driver("drv_stats"), [ops])
+    ref_out, c2 = run_cases(ctx.driver("drv_stats"), [["ref " + o for o in ops]])
+    if c1 or c2 or len(gen_out[0]) != len(ops) or len(ref_out[0]) != len(ops):
+        ctx.log("grid: driver crashed / line count", len(gen_out[0]), len(ref_out[0]), len(ops))
+        return [], len(ops)
+    hits = []
+    for op, g, r in zip(ops, gen_out[0], ref_out[0]):
+        gt, rt = g.split(), r.split()
+        same = len(gt) == len(rt) and all(x == y or (is_hex(x) and is_hex(y) and hex2float(x) != hex2float(x)
+                                                      and hex2float(y) != hex2float(y)) for x, y in zip(gt, rt))
+        viol = definition_check(op, gt[1:]) if gt and gt[0] in ("ok", "int", "flag") else [("formula throws", g)]
+        if not same or viol:
+            hits.append({"kind": op.split()[0], "op": op, "gen": g, "ref": r, "differs": not same,
+                         "violations": [list(x) for x in viol[:4]]})
+    hits.sort(key=hit_rank)
+    return hits, len(ops)
+
+
+def hit_rank(h):
+    """definition-violating arguments first, then the least extreme magnitudes"""
+    xs = [abs(hex2float(x)) for x in h["op"].split()[1:] if is_hex(x)]
+    ext = max([abs(math.log10(x)) for x in xs if x > 0 and x != float("inf")] + [0.0])
+    t = h["op"].split()
+    noise = t[0] == "obs" and abs(1 - hex2float(t[3])) < 1e-5       # q_bb = 1 +- rounding: an observation without redundancy
+    return (0 if h["violations"] else 1, 1 if noise else 0, ext)
+
+
+def describe_hit(h):
+    t = h["op"].split()
+    vals = [hex2float(x) if is_hex(x) else x for x in t[1:]]
+    names = {"ell": ("cyy", "cyx", "cxx", "m0"), "obs": ("m0", "sigma_apr", "q_bb", "stdev", "residual"),
+             "m0": ("sigma_act", "sigma_apr", "vPv", "dof"), "conf": ("sigma_act", "conf_pr", "dof", "p", "normal", "student"),
+             "dof": ("rows", "cols", "defect"), "unk": ("m0", "q_xx"), "cov": ("m0", "q"), "xml": ("vPv", "sigma_apr", "dof"),
+             "err": ("v", "q_vv", "weight"), "accept": ("p",)}.get(t[0], ())
+    out = lambda l: [hex2float(x) if is_hex(x) else x for x in l.split()[1:]]
+    return {"formula": t[0], "argument": dict(zip(names, vals)), "regenerated_formula_gives": out(h["gen"]),
+            "reference_model_gives": out(h["ref"]), "definition_violated": h["violations"]}
+
+
+def realise(ctx, hits, kinds):
+    """networks for gama-local on which the arguments found by the grid occur: [{fam, net, alg, sigma_apr_2?, hit}]"""
+    rng = random.Random(f"C09-realise-{ctx.seed}")
+    cases = []
+
+    def add(fam, net, algs, hit=None, s2=None):
+        for alg in algs:
+            c = {"fam": "realised:" + fam, "net": net, "alg": alg, "hit": hit}
+            if s2 is not None:
+                c["sigma_apr_2"] = s2
+            cases.append(c)
+
+    by = {}
+    for h in hits:
+        by.setdefault(h["kind"], []).append(h)
+    # ---- ellipse: a point determined only by <coordinates> with covariance sigma_apr^2 * [[cxx, cyx], [cyx, cyy]]
+    seen = set()
+    for h in by.get("ell", []):
+        cyy, cyx, cxx, m = (hex2float(x) for x in h["op"].split()[1:5])
+        if not (cxx > 0 and cyy > 0) or cyx * cyx >= cxx * cyy * (1 - 1e-6) ** 2:
+            continue                                            # not realisable as a regular covariance matrix
+        cls = (cyx == 0, (cyy > cxx) - (cyy < cxx), round(math.log10(max(cxx, cyy))), round(math.log10(min(cxx, cyy))),
+               (cyx > 0) - (cyx < 0), abs(cyx) > 0.5 * math.sqrt(cxx * cyy))
+        if cls in seen or len(seen) >= 24:
+            continue
+        seen.add(cls)
+        # sigma-apr so that the standard deviations are between 1e-3 and 1e3 (mm) if possible
+        big = math.sqrt(max(cxx, cyy))
+        sapr = min((1.0, 10.0, 1000.0, 0.001, 1e5, 1e-5), key=lambda sg: abs(math.log10(sg * big)))
+        cov = [[cxx * sapr * sapr, cyx * sapr * sapr], [cyx * sapr * sapr, cyy * sapr * sapr]]
+        for how, act in (("coords", "apriori"), ("coords2", "aposteriori"), ("coords2", "apriori")):
+            # an ordinary trilaterated point next to it (weights of order 1) unless sigma-apr is extreme
+            net = diag_block_fixed(rng, "-", how, cov2=cov, q_scale=sapr if 0.1 <= sapr <= 100 else 0)
+            net["params"]["sigma-apr"] = sapr
+            net["params"]["sigma-act"] = act
+            add(f"ell[{how},{act}]", net, ["gso", "svd"] if not (1e-3 <= sapr <= 100) else ALGS, describe_hit(h))
+    if "ell" in kinds and not by.get("ell"):
+        for fam, net, algs, sg in structured_nets():
+            if "diag" in fam:
+                add("ell-default:" + fam, net, algs)
+    # ---- observations: the weight (sigma-apr/stdev)^2 of the argument on a redundant trilateration; q_bb ~ 1 -> dof 0
+    ratios = {}
+    for h in by.get("obs", []) + by.get("err", []):
+        t = h["op"].split()
+        if t[0] == "obs":
+            m, sapr, qbb, sd = (hex2float(x) for x in t[1:5])
+            ratio = sapr / sd
+        else:
+            qbb, ratio = 0.5, math.sqrt(hex2float(t[3]))
+        if 1e-4 <= ratio <= 1e4:
+            key = (round(math.log10(ratio) * 2) / 2, abs(1 - qbb) < 1e-5)
+            ratios.setdefault(key, (ratio, describe_hit(h)))
+    if ("obs" in kinds or "err" in kinds) and not ratios:
+        ratios = {(lg, False): (10.0 ** lg, None) for lg in (-3, 0, 3)}
+    for (lg, nored), (ratio, hit) in sorted(ratios.items(), key=lambda kv: kv[0][1])[:16]:     # stable: rank order kept
+        for rep in range(2):
+            sd = rng.choice([1.0, 2.0, 5.0])
+            if nored:
+                net = None
+                while net is None:
+                    net = small_dof_network(rng, rng.choice([0, 1]))
+                for o in net["obs"]:
+                    for it in o["items"]:
+                        it["stdev"] = sd
+            else:
+                net = trilat_pair_network(rng, sds=(sd,), dof_extra=rep)
+            net["params"]["sigma-apr"] = float(f"{ratio * sd:.6g}")
+            net["params"]["sigma-act"] = ("aposteriori", "apriori")[rep]
+            add(f"obs[weight=1e{2 * lg:g}{',q_bb~1' if nored else ''}]", net,
+                ALGS if 1.3e-3 < ratio < 300 else ["gso", "svd"], hit, s2=sd)        # pair: the same network with weight 1
+    # ---- m0 / confidence coefficient / <aposteriori>, <ratio>: the redundancy of the argument
+    dofs = {}
+    for h in by.get("m0", []) + by.get("conf", []) + by.get("xml", []):
+        t = h["op"].split()
+        dof = int(t[4] if t[0] == "m0" else t[3])
+        act = t[1] if t[0] in ("m0", "conf") else "aposteriori"
+        dofs.setdefault((min(max(dof, 0), 4), act), describe_hit(h))
+    if {"m0", "conf", "xml"} & set(kinds) and not dofs:
+        dofs = {(d, a): None for d in (0, 1, 2, 3) for a in ("apriori", "aposteriori")}
+    for (dof, act), hit in sorted(dofs.items()):
+        for rep in range(2):
+            net = None
+            while net is None:
+                net = small_dof_network(rng, dof)
+            net["params"]["sigma-act"] = act
+            net["params"]["sigma-apr"] = rng.choice([1, 10, 100])
+            net["params"]["conf-pr"] = rng.choice([0.5, 0.95, 0.99])
+            add(f"dof{dof}[{act}]", net, ALGS, hit)
+    # ---- dof / unknown_stdev / <cov-mat>: any adjusted network; free networks for the defect
+    if {"dof", "unk", "cov"} & (set(by) | set(kinds)):
+        hit = describe_hit((by.get("dof") or by.get("unk") or by.get("cov") or [None])[0]) if (set(by) & {"dof", "unk", "cov"}) else None
+        for rep in range(6):
+            net = gen_net.make_network(rng, npts=rng.randint(4, 6), nfixed=0 if rep % 2 else 2, free=bool(rep % 2), noise=1.0,
+                                       kinds=("direction", "distance"), density=0.8)
+            add("free2d" if rep % 2 else "fixed2d", net, ALGS, hit)
+    for i, c in enumerate(cases):
+        c["rix"] = i
+    return cases
+
+
+def props_current(ctx):
+    """did Gama.Props.C09 build against the current regenerated formulas (lake leaves no .olean after an error)"""
+    olean = ctx.lean / ".lake" / "build" / "lib" / "lean" / "Gama" / "Props" / "C09.olean"
+    srcs = [ctx.lean / "Gama" / "Gen" / "StatsGen.lean", ctx.lean / "Gama" / "Props" / "C09.lean"]
+    try:
+        return olean.stat().st_mtime >= max(x.stat().st_mtime for x in srcs)
+    except OSError:
+        return False
+
+
+ALL_KINDS = ["conf", "dof", "ell", "m0", "obs", "unk", "xml"]
+
+
+def search(ctx, broken, corr, grid=None):
+    """something broke (proof / translator / correspondence) and the always-on oracle saw nothing:
+    (1) grid over the guard boundaries: regenerated formula vs reference model vs definition -> failing ARGUMENTS;
+    (2) those arguments realised as networks, confirmed on gama-local / the in-process LocalNetwork;
+    (3) boundary families, (4) a larger general sample, before giving up"""
     d, objs = libgama_objects(ctx)
     exe = ctx.build_cpp("c09_stats", [ctx.verif / "harness" / "c09_stats.cpp"], libs=objs + ["-lexpat"],
                         includes=[ctx.verif / "harness"])
     fails, dis = [], list(corr.disagreements)
-    for stage, maker in (("boundary", lambda t: boundary_cases(ctx, t, 600)), ("general", lambda t: build_cases(ctx, t, 1500))):
+    # which formulas are named by what broke
+    names = " ".join(getattr(b, "name", "") + " " + getattr(b, "detail", "")[:400] for b in broken)
+    kinds = sorted({k for nm, ks in GEN_KIND.items() if re.search(r"(gen_|C09_|StatsGen\.|stats:)\w*" + nm, names) for k in ks})
+    for di in dis:
+        kinds = sorted(set(kinds) | {di["stream"].split(":")[-1]} & {"ell", "obs", "m0", "conf", "dof", "unk"})
+    hits, npts = grid or ([], 0)
+    if grid is None:
+        ok, log = ctx.lake_build(["drv_stats"])                    # the driver must be the one of the CURRENT Gen file
+        if ok:
+            hits, npts = grid_eval(ctx)
+        else:
+            ctx.log("search: drv_stats does not build with the regenerated formulas; grid stage skipped")
+    byk = {}
+    for h in hits:
+        byk.setdefault(h["kind"], []).append(h)
+    ctx.log(f"search stage grid: {npts} arguments, formulas named by the break: {kinds or 'none'}; "
+            + (", ".join(f"{k}: {len(v)} failing arguments" for k, v in sorted(byk.items())) or "no failing argument"))
+    for k, v in sorted(byk.items()):
+        ctx.log("   e.g.", json.dumps(describe_hit(v[0]))[:600])
+    stages = [("realised", lambda t: _write(realise(ctx, hits, kinds or sorted(byk) or ALL_KINDS), t)),
+              ("boundary", lambda t: boundary_cases(ctx, t, 600)), ("general", lambda t: build_cases(ctx, t, 1500))]
+    for stage, maker in stages:
         tmp = Path(tempfile.mkdtemp(prefix="c09s-", dir=str(ctx.build)))
         c2 = Corr()
         try:
-            check_cases(ctx, c2, maker(tmp), exe, d / "gama-local", tmp)
+            cases = maker(tmp)
+            if not cases:
+                continue
+            check_cases(ctx, c2, cases, exe, d / "gama-local", tmp)
         finally:
             shutil.rmtree(tmp, ignore_errors=True)
-        ctx.log(f"search stage {stage}: {c2.evaluations} evaluations, {len(c2.failures)} failures, {len(c2.disagreements)} disagreements")
+        ctx.log(f"search stage {stage}: {len(cases)} networks, {c2.evaluations} evaluations, {len(c2.failures)} failures, "
+                f"{len(c2.disagreements)} disagreements")
         dis += c2.disagreements
-        fails = [f for f in c2.failures if classify(ctx, f) is None] or fails
+        new = [f for f in c2.failures if classify(ctx, f) is None]
+        if stage == "realised":                                    # say which formula argument the network realises
+            for f in new:
+                fam = f.replay.get("family") if isinstance(f.replay, dict) else None
+                for c in cases:
+                    if c["fam"] == fam and c.get("hit") and c["net"] is f.replay.get("net"):
+                        f.replay["realises_formula_argument"] = c["hit"]
+                        break
+            order = {id(c["net"]): c["rix"] for c in reversed(cases)}
+            new.sort(key=lambda f: (0 if isinstance(f.replay, dict) and f.replay.get("realises_formula_argument") else 1,
+                                    order.get(id(f.replay.get("net")), 1 << 30) if isinstance(f.replay, dict) else 1 << 30,
+                                    0 if isinstance(f.replay, dict) and f.replay.get("oracle") == "xml" else 1))
+        fails = new or fails
         if fails:
             break
     if not fails:
         # a correspondence disagreement is a formula that no longer is the modelled one: the inputs of that
         # formula on the real network are the concrete failing input
-        for di in dis[:1]:
+        for di in [x for x in dis if not x["stream"].startswith("stats:grid")][:1]:
             fails.append(Failure("statistic accessor no longer equals the modelled formula: " + di["stream"],
                                  {"op": di["case"], "impl": di["impl"], "model": di["model"], "why": di["why"]},
                                  "LocalNetwork " + di["stream"], json.dumps(di)[:1500]))
     return fails
+
+
+def _write(cases, tmp):
+    for i, c in enumerate(cases):
+        c["path"] = tmp / f"n{i}.gkf"
+        c["path"].write_text(gen_net.to_gkf(c["net"], algorithm=c["alg"], nd=10))
+    return cases
 
 
 F1_MARKS = ("stdev of adjusted coordinate observation", "stdev of adjusted linear observation")
@@ -1060,9 +1598,40 @@ def classify(ctx, failure):
             nets.append(n2)
         small = min(weight_range(n)[0] for n in nets) < 1.5e-6 or max(weight_range(n)[1] for n in nets) > 1e5
         structural = ("refused" in failure.what) or (v and v[0][0] in ("eq", "unk", "dof", "defect", "observation count"))
-        if small and structural:
+        if small and (structural or structural_vs_gso(ctx, p)):
             return "C09-F2"
     return None
+
+
+_VS_GSO = {}
+
+
+def structural_vs_gso(ctx, p):
+    """single-run manifestation of F2 (the defect of a free network hidden / undercounted by envelope or cholesky when the
+    weights exceed 1e5, whose numbers are then those of a singular system taken for regular): the SAME input under gso
+    reports other numbers of equations / unknowns / dof / defect and is consistent in every field (F1 apart)"""
+    key = id(p.get("net")), p.get("alg")
+    if key not in _VS_GSO:
+        res = False
+        tmp = Path(tempfile.mkdtemp(prefix="c09c-", dir=str(ctx.build)))
+        try:
+            gama = ctx.build_gama(sanitize=False) / "gama-local"
+            R = {}
+            for alg in (p["alg"], "gso"):
+                g = tmp / f"{alg}.gkf"
+                g.write_text(gen_net.to_gkf(p["net"], algorithm=alg, nd=10))
+                R[alg] = run_gama(gama, g, tmp / f"{alg}.xml")[0]
+            if R["gso"] is not None:
+                bad, _, _ = oracle_xml(R["gso"], p["net"], flat_stdevs(p["net"]))
+                clean = all(any(m in x[0] for m in F1_MARKS) and "(band=0)" not in x[0] for x in bad)
+                differs = R[p["alg"]] is None or any(R[p["alg"]][f] != R["gso"][f] for f in ("eq", "unk", "dof", "defect"))
+                res = clean and differs
+        except (OSError, KeyError, BuildError):
+            res = False
+        finally:
+            shutil.rmtree(tmp, ignore_errors=True)
+        _VS_GSO[key] = res
+    return _VS_GSO[key]
 
 
 def replay(ctx, payload):
